@@ -109,6 +109,9 @@ type vpCfg struct {
 	ReqHdrs  []vpHeaderCfg   `json:"reqHeaders"`
 	RespHdrs []vpHeaderCfg   `json:"respHeaders"`
 	Structured bool          `json:"structuredHeaders"`
+
+	// not part of the abstract record: an existing Redis to share (a restarted / second proxy instance)
+	shareRedis *miniredis.Miniredis `json:"-"`
 }
 
 type vpUpstreamCfg struct {
@@ -189,6 +192,7 @@ type vpWorld struct {
 	idp     *vpIdP
 	xidp    *vpIdP // extra JWT issuer (bearer only)
 	mr      *miniredis.Miniredis
+	mrShared bool
 	redis   *vpRedisHook
 	ups     map[string]*vpUpstream
 	upOrder []string
@@ -362,7 +366,12 @@ func vpNewWorld(cfg *vpCfg) (*vpWorld, error) {
 	}
 
 	// session store
-	if cfg.Store == "redis" {
+	if cfg.Store == "redis" && cfg.shareRedis != nil {
+		w.mrShared = true
+		w.mr = cfg.shareRedis
+		o.Session.Type = options.RedisSessionStoreType
+		o.Session.Redis.ConnectionURL = "redis://" + w.mr.Addr()
+	} else if cfg.Store == "redis" {
 		mr := miniredis.NewMiniRedis()
 		if err := mr.Start(); err != nil {
 			return nil, err
@@ -502,7 +511,7 @@ func (w *vpWorld) close() {
 	for _, u := range w.ups {
 		u.srv.Close()
 	}
-	if w.mr != nil {
+	if w.mr != nil && !w.mrShared {
 		w.mr.Close()
 	}
 	if w.tmp != "" {
